@@ -130,7 +130,12 @@ def generated(ctx):
 
 # --------------------------------------------------------------------------------------------------
 # cases.   case = {spec, d0, s0, ops: [[kind, ...]], final: [kind, ...]}
-#   ops:   ['I', d] | ['S', s] | ['E', ns, [x per source]] | ['G', ns]
+#   ops:   ['I', d]               new trial, data set d, newly created events array
+#          ['R']                  new trial on the same events array instance once more
+#          ['M', d]               new trial on the same events array instance edited in place to hold data set d
+#          ['S', s, how, events]  source change; how = 'mutate' | 'replace' | 'new' (manager / source object identity),
+#                                 events = 'new' | 'same' (instance handed to the re-initialised trial); default new/new
+#          ['E', ns, [x per source]] | ['G', ns]
 #   final: ['eval', ns, xs] | ['eval_grad2', ns, xs] | ['grad2raw', ns] | ['maximize']
 
 def _cf():
@@ -146,12 +151,48 @@ def points(spec):
     b = cf.base(spec)
     gv = cf.grid_values(spec)
     if spec['interp'] == 'linear':
-        off = {'p': 1.03, 'p2': 1.07, 'q': 1.13, 'r': 2.56, 'r2': 0.31}
+        off = {'p': 1.03, 'p2': 1.07, 'q': 1.13, 'r': 1.56, 'r2': 0.31}
     else:
-        off = {'p': 1.02, 'p2': 0.97, 'q': 1.07, 'r': 2.56, 'r2': 0.31}
+        off = {'p': 1.02, 'p2': 0.97, 'q': 1.07, 'r': 1.56, 'r2': 0.31}
     pts = {k: b + v for k, v in off.items()}
     pts['n'] = float(gv[11])
     return pts
+
+
+def apply_op(G, op):
+    cf = _cf()
+    if op[0] == 'I':
+        cf.op_init(G, op[1])
+    elif op[0] == 'R':
+        cf.op_reinit_same(G)
+    elif op[0] == 'M':
+        cf.op_mutate_events(G, op[1])
+    elif op[0] == 'S':
+        cf.op_change_source(G, op[1], *(op[2:4] if len(op) >= 4 else ('new', 'new')))
+    elif op[0] == 'E':
+        return cf.op_evaluate(G, op[1], op[2])
+    elif op[0] == 'G':
+        return cf.op_grad2(G, op[1])
+    else:
+        raise ValueError(op)
+    return 'U'
+
+
+def model_ops(case, ops=None):
+    """the history in the model's alphabet: R / M are initTrial of the current / the new data set"""
+    d = case['d0']
+    out = []
+    for op in (case['ops'] if ops is None else ops):
+        if op[0] in ('I', 'M'):
+            d = op[1]
+            out.append(['I', d])
+        elif op[0] == 'R':
+            out.append(['I', d])
+        elif op[0] == 'S':
+            out.append(['S', op[1]])
+        else:
+            out.append(op)
+    return out
 
 
 def run_history(spec, d0, s0, ops, final=None):
@@ -165,18 +206,7 @@ def run_history(spec, d0, s0, ops, final=None):
         return ['EXC:%s: %s' % (type(e).__name__, e)], None
     for op in ops:
         try:
-            if op[0] == 'I':
-                cf.op_init(G, op[1])
-                res.append('U')
-            elif op[0] == 'S':
-                cf.op_change_source(G, op[1])
-                res.append('U')
-            elif op[0] == 'E':
-                res.append(cf.op_evaluate(G, op[1], op[2]))
-            elif op[0] == 'G':
-                res.append(cf.op_grad2(G, op[1]))
-            else:
-                raise ValueError(op)
+            res.append(apply_op(G, op))
         except Exception as e:  # noqa
             res.append('EXC:%s: %s' % (type(e).__name__, str(e)[:120]))
             return res, None
@@ -203,7 +233,7 @@ def run_history(spec, d0, s0, ops, final=None):
 def last_state(case):
     d, s = case['d0'], case['s0']
     for op in case['ops']:
-        if op[0] == 'I':
+        if op[0] in ('I', 'M'):
             d = op[1]
         elif op[0] == 'S':
             s = op[1]
@@ -231,16 +261,21 @@ def _short(x):
 # --------------------------------------------------------------------------------------------------
 # property oracles (implementation only)
 
-def o_fresh_vs_used(ctx, case):
-    """the final query on the used objects == the same query on a freshly built object graph"""
+_NOT_GIVEN = object()
+
+
+def o_fresh_vs_used(ctx, case, used=_NOT_GIVEN):
+    """the final query on the used objects == the same query on a freshly built object graph
+    (`used`: the result of the final query if the caller has driven the history already)"""
     spec = case['spec']
-    (_, used) = run_history(spec, case['d0'], case['s0'], case['ops'], case['final'])
+    if used is _NOT_GIVEN:
+        (_, used) = run_history(spec, case['d0'], case['s0'], case['ops'], case['final'])
     (d, s) = last_state(case)
     ref_ops = []
     if case['final'][0] == 'grad2raw':
         # the second derivative alone is *defined* relative to the last evaluation of the current trial
         for op in case['ops']:
-            if op[0] in ('I', 'S'):
+            if op[0] in ('I', 'S', 'R', 'M'):
                 ref_ops = []
             elif op[0] == 'E':
                 ref_ops = [op]
@@ -274,16 +309,8 @@ def o_cache_onoff(ctx, case):
 
 
 def _drive(G, ops):
-    cf = _cf()
     for op in ops:
-        if op[0] == 'I':
-            cf.op_init(G, op[1])
-        elif op[0] == 'S':
-            cf.op_change_source(G, op[1])
-        elif op[0] == 'E':
-            cf.op_evaluate(G, op[1], op[2])
-        elif op[0] == 'G':
-            cf.op_grad2(G, op[1])
+        apply_op(G, op)
 
 
 def _diff_keys(a, b):
@@ -361,7 +388,7 @@ def _request(case, variant):
     d, s = case['d0'], case['s0']
     qs = []
     toks = []
-    for op in list(case['ops']) + ([['E'] + list(case['final'][1:])] if case['final'] and case['final'][0] == 'eval' else []):
+    for op in model_ops(case) + ([['E'] + list(case['final'][1:])] if case['final'] and case['final'][0] == 'eval' else []):
         if op[0] == 'I':
             d = op[1]
             toks.append('I%d' % d)
@@ -440,7 +467,7 @@ def _compare(ctx, case, impl, model_line, stats=None):
     if model_line in ('bad-op', 'bad-ops'):
         return 'driver rejected the request: ' + model_line
     model = model_line.split(';')
-    ops = list(case['ops']) + ([['E'] + list(case['final'][1:])] if case['final'] and case['final'][0] == 'eval' else [])
+    ops = model_ops(case) + ([['E'] + list(case['final'][1:])] if case['final'] and case['final'][0] == 'eval' else [])
     last_eval = None     # (d, s, ns, xs) of the last evaluate executed
     d, s = case['d0'], case['s0']
     for i, (op, m) in enumerate(zip(ops, model)):
@@ -671,7 +698,7 @@ def classify(name, case, res):
                 'repeated-evaluation' if ('twice in a row' in res or 'second time' in res) else 'cache-content')
     elif case['final'][0] == 'grad2raw':
         mode = 'stale-nsgrad'
-    elif 'I' in kinds or 'S' in kinds:
+    elif any(k in kinds for k in 'ISRM'):
         mode = 'stale-after-new-trial'
     else:
         mode = 'stale-interpolation-cell'
@@ -693,27 +720,38 @@ def all_specs(split_ok):
 
 
 def probe_cases(spec, i):
-    """directed invalidation probes, swept over every configuration: evaluate, then new trial of equal size / of
-    different size / new source / another grid cell, then the first point again"""
+    """directed invalidation probes, swept over every configuration (deterministic): evaluate, then a new trial (new events
+    array of equal / different size, same array again, same array edited in place), a source change in each identity
+    flavour (sources mutated in place / replaced inside the same manager / new manager) with the re-initialised trial on a
+    new or on the same events array, another grid cell, per-source values equal -> different -> equal; then the first
+    point again"""
     pts = points(spec)
     K = spec['K']
-    p = [pts['p']] * K if not spec.get('split') else [pts['p'], pts['q']][:K]
+    split = bool(spec.get('split')) or (spec.get('graph') == 'i3' and K > 1)
+    p = [pts['p']] * K
     # per-source parameters: the second point keeps the grid cell of the first source and moves the second source
-    q = [pts['r']] * K if not spec.get('split') else [pts['p2'], pts['r']][:K]
+    q = [pts['r']] * K if not split else [pts['p2'], pts['r']][:K]
     sp = spec if spec.get('graph') == 'i3' else dict(spec, product=[None, 'first', 'second'][i % 3])
-    out = [dict(spec=sp, d0=0, s0=0, ops=[['E', 2.5, p], ['I', 1]], final=['eval', 2.5, p])]
+    sp = dict(sp, reuse_fp=(i % 2 == 1))
+    how = ['new', 'replace', 'mutate'][i % 3]
+    how2 = ['replace', 'mutate', 'new'][i % 3]
+    out = [dict(spec=sp, d0=0, s0=0, ops=[['E', 2.5, p], ['I', 1]], final=['eval', 2.5, p]),
+           dict(spec=sp, d0=0, s0=0, ops=[['E', 2.5, p], ['S', 1, how, 'same']], final=['eval', 2.5, p])]
+    if i % 2 == 1 or spec.get('graph') == 'i3':
+        out.append(dict(spec=sp, d0=1, s0=1, ops=[['E', 0.7, p], ['S', 0, how2, 'new']], final=['eval_grad2', 0.7, p]))
     if i % 2 == 0:
         out.append(dict(spec=sp, d0=1, s0=0, ops=[['E', 2.5, p], ['I', 2]], final=['eval', 2.5, p]))
     else:
-        out.append(dict(spec=sp, d0=1, s0=0, ops=[['E', 0.7, p], ['S', 1]], final=['eval_grad2', 0.7, p]))
-    if i % 3 == 0 or spec.get('split') or spec.get('graph') == 'i3':
+        out.append(dict(spec=sp, d0=1, s0=0, ops=[['E', 2.5, p], ['M', 0]], final=['eval', 2.5, p]))
+    if i % 3 == 0 or split:
         out.append(dict(spec=sp, d0=2, s0=1, ops=[['E', 2.5, p], ['E', 2.5, q]], final=['eval', 2.5, p]))
         out.append(dict(spec=sp, d0=2, s0=1, ops=[['E', 2.5, p]], final=['eval_grad2', 2.5, q]))
     return out
 
 
 def i3_specs():
-    return [dict(graph='i3', K=1, order=o, interp=i) for o in ('first', 'second') for i in ('linear', 'parabola')]
+    return [dict(graph='i3', K=K, order=o, interp=i) for K in (1, 2) for o in ('first', 'second')
+            for i in ('linear', 'parabola')]
 
 
 def witness_cases():
@@ -744,18 +782,22 @@ def gen_case(ctx, spec, maxlen):
     K = spec['K']
 
     def xs():
-        if K == 2 and spec.get('split'):
-            return [pts[rng.choice(names)] for _ in range(K)]
         v = pts[rng.choice(names)]
+        if K == 2 and spec.get('split') and rng.random() < 0.6:     # per-source values: all equal (40 %), else different
+            return [pts[rng.choice(names)] for _ in range(K)]
         return [v] * K
     n = rng.randrange(0, maxlen + 1)
     ops = []
     for _ in range(n):
         r = rng.random()
-        if r < 0.28:
+        if r < 0.16:
             ops.append(['I', rng.randrange(3)])
+        elif r < 0.22:
+            ops.append(['R'])
+        elif r < 0.28:
+            ops.append(['M', rng.randrange(2)])
         elif r < 0.40:
-            ops.append(['S', rng.randrange(2)])
+            ops.append(['S', rng.randrange(2), rng.choice(['mutate', 'replace', 'new']), rng.choice(['new', 'same'])])
         elif r < 0.90:
             ops.append(['E', rng.choice([2.5, 0.7]), xs()])
         else:
@@ -778,6 +820,7 @@ def gen_case(ctx, spec, maxlen):
         ctx.count('final repeats the last evaluated point')
     if spec.get('graph') != 'i3':
         spec = dict(spec, product=rng.choice([None, None, 'first', 'second']))
+    spec = dict(spec, reuse_fp=rng.random() < 0.5)
     return dict(spec=spec, d0=rng.randrange(3), s0=rng.randrange(2), ops=ops, final=final)
 
 
@@ -797,7 +840,8 @@ def _split_supported():
 def run(ctx):
     variant = extract_variant(ctx)
     ctx.extra['source_facts'] = dict(zip(('bumpAlways', 'exactHit', 'resetNsgrad'), variant))
-    ctx.rule = ('histories of length 0..3 (quick) / 0..5 (thorough) over {initialize trial with data set A/B/C (6,6,9 events), '
+    ctx.rule = ('histories of length 0..3 (quick) / 0..5 (thorough) over {initialize trial with data set A/B/C (6,6,9 events) on a '
+                'new / the same / the in-place edited events array, source change by mutation / replacement / new manager, '
                 'evaluate at p/p2 (same grid cell), q (adjacent), r/r2 (distant), n (grid node), change source hypothesis, '
                 'second derivative}, then a final query (evaluate | evaluate+second derivative | second derivative alone | '
                 'maximize+TS); object graphs: 1 or 2 sources (shared or per-source parameter) x trial data manager without / '
@@ -808,14 +852,17 @@ def run(ctx):
                          'grid keys taken from the real ParameterGrid (property C15)',
                          'IEEE rounding is outside the theorems; the LLH value formula itself is property C01']
     ctx.assumptions += ['a source change is followed by initialize_trial (documented requirement of change_shg_mgr)',
+                        'a source change keeps the number of sources (the ParameterModelMapper is built for a fixed source count)',
                         'all source hypotheses of one object graph have the same number of sources',
-                        'every trial gets a new events array (as pseudo-data generation delivers)']
+                        'object identity is varied on purpose: events array new / same instance again / same instance edited in '
+                        'place; sources mutated in place / replaced inside the same manager / new manager; fit parameter array '
+                        'new / one instance overwritten; the model maps all flavours to the same operation']
     split_ok = _split_supported()
     if not split_ok:
         ctx.note('C06: per-source parameter configurations skipped: get_values_mask_for_source_mask raises NameError (C02)')
     specs = all_specs(split_ok)
     maxlen = ctx.n(3, 5)
-    per_spec = ctx.n(2, 40)
+    per_spec = ctx.n(1, 40)
     cases = [(c, True) for c in witness_cases()]
     for i, spec in enumerate(specs):
         for c in probe_cases(spec, i):
@@ -824,18 +871,27 @@ def run(ctx):
         for _ in range(per_spec):
             cases.append((gen_case(ctx, spec, maxlen), False))
     # PDFRatioProduct around the real SplinedI3EnergySigSetOverBkgPDFRatio (oracles only; no Lean model of this graph)
-    i3_cases = [dict(spec=sp, d0=0, s0=0, ops=[['E', 2.5, [2.13]]], final=['eval', 2.5, [2.13]]) for sp in i3_specs()]
+    i3_cases = [dict(spec=sp, d0=0, s0=0, ops=[['E', 2.5, [2.13] * sp['K']]], final=['eval', 2.5, [2.13] * sp['K']])
+                for sp in i3_specs()]
     for i, sp in enumerate(i3_specs()):
-        i3_cases += probe_cases(sp, i) + probe_cases(sp, i + 1)[1:2]
-        i3_cases += [gen_case(ctx, sp, maxlen) for _ in range(ctx.n(8, 150))]
+        i3_cases += probe_cases(sp, i) + probe_cases(sp, i + 1)[1:4]
+        i3_cases += [gen_case(ctx, sp, maxlen) for _ in range(ctx.n(4, 100))]
     stats = {'floats': 0, 'bit_exact': 0}
     # ---- implementation runs + model requests (one driver batch)
     impls, reqs = [], []
-    for case, _ in cases:
+    used_final = {}
+    for ci, (case, _) in enumerate(cases):
         ops = list(case['ops']) + ([['E'] + list(case['final'][1:])] if case['final'][0] == 'eval' else [])
         (impl, _f) = run_history(case['spec'], case['d0'], case['s0'], ops)
         impls.append(impl)
         reqs.append(_request(case, variant))
+        if case['final'][0] == 'eval':
+            # the last operation of this run *is* the final query of the fresh-vs-used oracle
+            if len(impl) == len(ops):
+                r = impl[-1]
+                used_final[ci] = {k: r[k] for k in ('llh', 'grads', 'ratio', 'grad')} if isinstance(r, dict) else r
+            else:
+                used_final[ci] = None
     models = ctx.driver('C06', reqs)
     suspicious = []
     for (case, is_w), impl, m in zip(cases, impls, models):
@@ -847,7 +903,7 @@ def run(ctx):
         ctx.count('cfg:K%d%s/%s/%s/%s/%s' % (sp['K'], 's' if sp.get('split') else '', sp['fields'],
                                              'cache' if sp['cache'] else 'nocache', sp['interp'], sp['scale']))
         for op in case['ops']:
-            ctx.count('op:' + op[0])
+            ctx.count('op:' + op[0] + (':' + '/'.join(op[2:4]) if op[0] == 'S' and len(op) >= 4 else ''))
         d = _compare(ctx, case, impl, m, stats)
         if d:
             suspicious.append((case, impl, m, d))
@@ -855,14 +911,19 @@ def run(ctx):
     reported = set()
     for c in i3_cases:
         ctx.case(key=(c['spec'], c['d0'], c['s0'], c['ops'], c['final']), desc=c if ctx.evaluations % 211 == 0 else None)
-        ctx.count('cfg:i3/%s/%s' % (c['spec']['order'], c['spec']['interp']))
+        ctx.count('cfg:i3/K%d/%s/%s' % (c['spec']['K'], c['spec']['order'], c['spec']['interp']))
+        for op in c['ops']:
+            ctx.count('op:' + op[0] + (':' + '/'.join(op[2:4]) if op[0] == 'S' and len(op) >= 4 else ''))
         ctx.count('final:' + c['final'][0])
-    for case, is_w in cases + [(c, False) for c in i3_cases]:
+    for ci, (case, is_w) in enumerate(cases + [(c, False) for c in i3_cases]):
         for name in ('fresh_vs_used', 'cache_onoff', 'cache_snapshot'):
             if name == 'cache_onoff' and (case['spec'].get('graph') == 'i3' or not (is_w or ctx.rng.random() < 0.35)):
                 continue
             ctx.count('oracle:' + name)
-            res = ORACLES[name](ctx, case)
+            if name == 'fresh_vs_used' and ci in used_final:
+                res = o_fresh_vs_used(ctx, case, used=used_final[ci])
+            else:
+                res = ORACLES[name](ctx, case)
             if res:
                 sig0 = classify(name, case, res)
                 if sig0 in reported:
